@@ -19,3 +19,5 @@ open RV.C03
 #print axioms coll_is_sugar
 #print axioms preCheck_pre
 #print axioms hext_row_roundtrip
+#print axioms strip_resolves
+#print axioms strip_needs_nodot
